@@ -113,6 +113,13 @@ def run(ctx):
         schedules(ctx, binary, "{1, 2, 3}", 2, 2, "3 callers x 2 calls, n=2", simulate=6000)
     race = drv_binary(ctx, race=True)
     stress(ctx, binary, 4, 4, 6 if q else 8, 20 if q else 200, race_binary=race)
+    # sequences on INTERFACE methods (Iface.tla kind seq: As(f).Returns(r1, r2)): two methods of one variable with the same signature
+    # must keep sequences of their own
+    from lib.replay import replay_family
+    gi = ctx.tlc("MC_Iface", "Gen_Iface.cfg", workers=1, timeout=1500, constants={"MaxOps": 5 if q else 6, "V": '{"i1"}', "M": "<- M1h", "Kinds": '{"seq"}', "Args": "{7}"},
+                 tag="sequenced stubs on two methods of one interface variable: all histories")
+    ib = [b for b in ctx.behaviours(gi) if sum(1 for x in b if x["op"] == "Call") >= 2 and sum(1 for x in b if x["op"] == "Mock") >= 2]
+    replay_family(ctx, "iface", ib, env={"GODEBUG": "clobberfree=1"}, batch=4000)
     # LONG sequences (Scale.tla: Returns of up to 64 results, calls in bursts of 1 / 3 / 20)
     life.scale(ctx, 60, 1200, ops={"SeqStub"})
     ctx.cov["exhaustive"] = True
